@@ -19,3 +19,38 @@ Fixpoint B (len : Z) (ws : list int) : list Z :=
   | [] => []
   | w :: r => unpack_word (Z.to_nat (Z.min len 7)) w ++ B (len - 7) r
   end.
+
+(* ---- large generated payloads (harness/c22 `genBytes`, `fingerprint`) ----
+   A payload of n bytes is not printed: it is regenerated from a seed by the
+   linear congruential generator x := (x*1664525 + 1013904223) mod 2^32,
+   byte = x / 2^24; a large observed frame is projected to (length, fingerprint)
+   with fingerprint h := (h*257 + byte + 1) mod (2^61 - 1). All tail recursive:
+   the lists have up to a few 10^5 elements. *)
+Fixpoint gen_bytes_acc (n : nat) (x : Z) (acc : list Z) : list Z :=
+  match n with
+  | O => rev' acc
+  | S k => let x' := (x * 1664525 + 1013904223) mod 4294967296 in
+           gen_bytes_acc k x' (x' / 16777216 :: acc)
+  end.
+Definition gen_bytes (seed n : Z) : list Z := gen_bytes_acc (Z.to_nat n) seed [].
+
+Definition fingerprint (l : list Z) : Z :=
+  fold_left (fun h b => (h * 257 + b + 1) mod 2305843009213693951) l 0.
+
+(* tail-recursive append / concat / split of a stream into reads of given lengths *)
+Definition app_tr {A} (a b : list A) : list A := rev_append (rev' a) b.
+Definition concat_tr {A} (ls : list (list A)) : list A :=
+  rev' (fold_left (fun acc l => rev_append l acc) ls []).
+Fixpoint take_acc {A} (n : nat) (l : list A) (acc : list A) : list A * list A :=
+  match n, l with
+  | O, _ => (rev' acc, l)
+  | S k, x :: r => take_acc k r (x :: acc)
+  | S _, [] => (rev' acc, [])
+  end.
+Fixpoint split_by {A} (lens : list Z) (l : list A) : list (list A) :=
+  match lens with
+  | [] => []
+  | n :: r => let '(c, rest) := take_acc (Z.to_nat n) l [] in c :: split_by r rest
+  end.
+Definition expand_rle (r : list (Z * Z)) : list Z :=
+  flat_map (fun p => repeat (fst p) (Z.to_nat (snd p))) r.
